@@ -322,7 +322,7 @@ func (x *c20SX) sumIDLoop(s ast.Node, since, id int, v c20V, pre *c20St, ends []
 	}
 	isElem := func(t c20Tok) bool { return t.hole != nil && t.hole.fn == "elem" && t.hole.param == v.h.param }
 	f, l := *first, *later
-	h := &c20Hole{param: v.h.param, pname: v.h.pname}
+	h := &c20Hole{param: v.h.param, pname: v.h.pname, num: true}
 	old, _ := pre.at(buf)
 	switch {
 	case len(f) == 1 && isElem(f[0]) && len(l) == 1 && isElem(l[0]) && old.k == c20kList && old.name == "nums":
